@@ -85,7 +85,7 @@ func vhPageThrough(s *Server, q int, filter []string, limit int, n int) ([]strin
 }
 
 // vhPaging runs one paging experiment for query kind q.
-func vhPaging(q int, n int, symbolicIDs bool, filterKinds int) {
+func vhPaging(q int, n int, symbolicIDs bool, filterKinds []int) {
 	s := vhServer()
 	ids := make([]string, n)
 	for i := 0; i < n; i++ {
@@ -99,11 +99,17 @@ func vhPaging(q int, n int, symbolicIDs bool, filterKinds int) {
 		}
 		if q >= 5 {
 			// SEARCH iterates string values: the byte is the value, ids are fixed
-			vhDo(s, "SET", "k", vhDigits[i], "STRING", ids[i])
+			vhDo(s, "SET", "k", vhDigits[i], "FIELD", "f", vhDigits[i], "STRING", ids[i])
 		} else if i%2 == 0 || q >= 2 {
-			vhDo(s, "SET", "k", ids[i], "POINT", vhDigits[i], vhDigits[i+1])
+			vhDo(s, "SET", "k", ids[i], "FIELD", "f", vhDigits[i], "POINT", vhDigits[i], vhDigits[i+1])
 		} else {
-			vhDo(s, "SET", "k", ids[i], "STRING", "v")
+			vhDo(s, "SET", "k", ids[i], "FIELD", "f", vhDigits[i], "STRING", "v")
+		}
+	}
+	if q >= 5 {
+		// geometries next to the strings: SEARCH must page over the strings only
+		for g := vchoose(3); g > 0; g-- {
+			vhDo(s, "SET", "k", "g"+vhDigits[g], "POINT", vhDigits[g], vhDigits[g])
 		}
 	}
 	if q >= 2 && q <= 4 {
@@ -113,7 +119,7 @@ func vhPaging(q int, n int, symbolicIDs bool, filterKinds int) {
 		vhDo(s, "SET", "k", "r2", "BOUNDS", "-20", "-20", "1.5", "1.5")
 	}
 	var filter []string
-	switch vchoose(filterKinds) {
+	switch filterKinds[vchoose(len(filterKinds))] {
 	case 1:
 		filter = []string{"MATCH", vnondetStringN(1) + "*"}
 	case 2:
@@ -121,6 +127,12 @@ func vhPaging(q int, n int, symbolicIDs bool, filterKinds int) {
 		filter = []string{"MATCH", ids[0], "MATCH", vnondetStringN(1) + "*"}
 	case 3:
 		filter = []string{"MATCH", vnondetString(2)}
+	case 4:
+		filter = []string{"WHERE", "f", "1", "2"}
+	case 5:
+		filter = []string{"WHEREIN", "f", "2", "0", "2"}
+	case 6:
+		filter = []string{"WHERE", "f", "0", "1", "MATCH", vnondetStringN(1) + "*"}
 	}
 	limit := 1 + vchoose(n+3)
 
@@ -137,29 +149,29 @@ func vhPaging(q int, n int, symbolicIDs bool, filterKinds int) {
 	vobs("paged", q, limit, len(want))
 }
 
-//verif:cfg quick.b_objects=3 thorough.b_objects=4 b_ids=1_symbolic_byte_each quick.b_match=none|X*|literal+X* thorough.b_match=none|X*|literal+X*|0..2_symbolic_bytes b_limit=1..n+1 b_queries=SCAN,SCAN_DESC
+//verif:cfg quick.b_objects=3 thorough.b_objects=4 b_ids=1_symbolic_byte_each quick.b_filter=none|MATCH_X*|MATCH_literal+X*|WHERE_range|WHEREIN thorough.b_filter=+MATCH_0..2_symbolic_bytes|WHERE+MATCH b_limit=1..n+1 b_queries=SCAN,SCAN_DESC
 func VH_C11_paging_scan() {
-	n, fk := 3, 3
+	n, fk := 3, []int{0, 1, 2, 4, 5}
 	if vthorough() {
-		n, fk = 4, 4
+		n, fk = 4, []int{0, 1, 2, 3, 4, 5, 6}
 	}
 	vhPaging(vchoose(2), n, true, fk)
 }
 
-//verif:cfg quick.b_objects=3 thorough.b_objects=4 b_ids=concrete b_match=none|X*|literal+X* b_limit=1..n+1 b_queries=WITHIN,INTERSECTS,NEARBY
+//verif:cfg quick.b_objects=3 thorough.b_objects=4 b_ids=concrete b_filter=none|MATCH_X*|MATCH_literal+X*|WHERE_range|WHEREIN b_limit=1..n+1 b_queries=WITHIN,INTERSECTS,NEARBY
 func VH_C11_paging_spatial() {
 	n := 3
 	if vthorough() {
 		n = 4
 	}
-	vhPaging(2+vchoose(3), n, false, 3)
+	vhPaging(2+vchoose(3), n, false, []int{0, 1, 2, 4, 5})
 }
 
-//verif:cfg quick.b_objects=3 thorough.b_objects=4 b_values=1_symbolic_byte_each b_match=none|X* b_limit=1..n+1 b_queries=SEARCH,SEARCH_DESC
+//verif:cfg quick.b_objects=3 thorough.b_objects=4 b_values=1_symbolic_byte_each b_other_objects=0..2_geometries_in_the_same_collection b_filter=none|MATCH_X*|WHERE_range|WHEREIN b_limit=1..n+1 b_queries=SEARCH,SEARCH_DESC
 func VH_C11_paging_search() {
 	n := 3
 	if vthorough() {
 		n = 4
 	}
-	vhPaging(5+vchoose(2), n, true, 2)
+	vhPaging(5+vchoose(2), n, true, []int{0, 1, 4, 5})
 }
